@@ -11,7 +11,7 @@ LEVEL_TEXT = (
     'label is the dequeued depth + 1 and initial states have depth 1; the share-out keeps the local '
     'queue order. Minimality itself is the textbook consequence for one thread and is not computed.')
 
-FLOORS = {'C13-R1': 2, 'C13-R2': 2, 'C13-R3': 2, 'C13-R4': 2}
+FLOORS = {'C13-R1': 2, 'C13-R2': 2, 'C13-R3': 2, 'C13-R4': 2, 'C13-R5': 1}
 
 ENDS = {'pop_back': 'back', 'pop_front': 'front', 'push_back': 'back', 'push_front': 'front'}
 
@@ -96,3 +96,73 @@ def run(ctx):
                     ok = True
         ctx.check(ok, 'C13-R4', 'initial-depth', sp.b, good='initial jobs have depth 1',
                   bad='BFS spawn: initial jobs are not labelled with depth 1')
+
+    ctx.doc('C13-R5', 'single-thread order preservation: the BFS worker hands part of its queue to the market '
+                      'only when thread_count > 1, or the broker splits off at most (thread_count - open_count) '
+                      'pieces, which is 0 for a single worker')
+    with ctx.rule('C13-R5', 'BFS'):
+        sp = Spawn(F, 'BFS')
+        w = sp.worker
+        ctx.touched(w)
+        splits = w.calls_to('JobBroker::split_and_push')
+        # (a) worker-side guard: a comparison of the captured thread_count with a constant >= 1
+        guard_a = bool(splits)
+        for sc in splits:
+            ok = False
+            for sw in w.switches:
+                on = sw.on
+                if on.kind != 'bin' or on.key[0] not in ('Gt', 'Ge', 'Lt', 'Le', 'Ne'):
+                    continue
+                ops = [noref(o) for o in on.key[1:]]
+                tc = None
+                for k, o in enumerate(ops):
+                    if o.kind == 'arg' and o.key == 1 and o.fields():
+                        idx = o.fields()[0]
+                        if idx[1:].isdigit():
+                            par, uv = sp.upvar_source(int(idx[1:]))
+                            uv = noref(uv)
+                            if uv.fields()[-1:] == ('.thread_count',):
+                                tc = k
+                if tc is None:
+                    continue
+                other = ops[1 - tc]
+                if other.kind != 'const':
+                    continue
+                c = other.key
+                op = on.key[0]
+                # normalise to "thread_count OP c"
+                if tc == 1:
+                    op = {'Gt': 'Lt', 'Ge': 'Le', 'Lt': 'Gt', 'Le': 'Ge', 'Ne': 'Ne'}[op]
+                more_than_one = (op == 'Gt' and c >= 1) or (op == 'Ge' and c >= 2) or (op == 'Ne' and c == 1)
+                if more_than_one:
+                    te = sw.edges_for(True)
+                    if te and w.edges_dominate(te, sc.bb):
+                        ok = True
+            guard_a = guard_a and ok
+        # (b) broker-side bound: pieces = 1 + min(thread_count - open_count, len)
+        jb = F.body('job_market::JobBroker::<Job>::split_and_push')
+        ctx.touched(jb)
+        guard_b = False
+        so = jb.calls_to('VecDeque::split_off')
+        for c in jb.calls_to('cmp::min', 'Ord::min'):
+            vs = [jb.val(a) for a in c.args[:2]]
+            for v in vs:
+                cc = jb.call_at(v.key) if v.kind == 'call' else None
+                if cc is not None and 'saturating_sub' in cc.callee:
+                    a0, a1 = noref(jb.val(cc.args[0])), noref(jb.val(cc.args[1]))
+                    if a0.fields()[-1:] == ('.thread_count',) and a1.fields()[-1:] == ('.open_count',):
+                        # and this min feeds the loop bound (1 + min)
+                        for (i, si, st) in jb.assigns(lambda st: st['rv']['k'] == 'bin' and
+                                                      st['rv']['op'] in ('AddWithOverflow', 'Add')):
+                            xs = [jb.val(st['rv']['a']), jb.val(st['rv']['b'])]
+                            if any(x.kind == 'const' and x.key == 1 for x in xs) and \
+                                    any(x.kind == 'call' and x.key == c.bb for x in xs):
+                                guard_b = True
+        ctx.check(guard_a or guard_b, 'C13-R5', 'single-worker-keeps-its-queue', w,
+                  good='a single-threaded BFS never hands part of its queue to the market (%s)' %
+                       ('worker guards on thread_count > 1' if guard_a else
+                        'broker splits at most thread_count - open_count pieces'),
+                  bad='BFS: with one worker thread split_and_push can still move part of the local queue to the '
+                      'market (no `thread_count > 1` guard at the call, and the broker does not bound the number '
+                      'of pieces by the number of waiting workers): the oldest (shallowest) states are parked and '
+                      'deeper ones are evaluated first, so witnesses are no longer shortest')
